@@ -100,7 +100,7 @@ func c26Seeds() []elfgen.File {
 
 func init() {
 	checks["C26"] = eng.Check{
-		Rule:        "the real mltwist binary (built from the working tree) run as a process with stdin=/dev/null under a 4 GiB address-space limit and a 300 s hang guard on: (a) ELF files with RISC-V payloads over {valid code, undecodable word, truncated word, jump outside the code, misaligned jumps into the first / a middle / the last instruction of a block, entry at every 2-byte offset of the code and outside it, no executable section, no loadable segment, overlapping segments} x types; (b) every truncation length and every single-byte substitution {00, ff, ~b} of every header byte (ELF header, program headers, section headers) of two valid seed files (thorough: 20 substitute values for EVERY byte of the files); (c) memsz in {2^22, 2^30+1, 2^36, 2^62, 2^63, 2^64-1, 2^64-8} on a regular segment, on a segment without file bytes (alone / next to regular ones) and with the file size claimed equally large, section/segment addresses at the top of the address space; (d) argument vectors of length 0, 2, 3, a missing file, a directory, an empty file; plus the two seed files under a pseudo-terminal (UI must be entered and 'q' must exit 0). Oracle: exit status 1 with a 'mltwist: ' message (or UI entered), never a Go panic/fatal error, signal or timeout. Non-trivial = runs ending with the error exit.",
+		Rule:        "the real mltwist binary (built from the working tree) run as a process with stdin=/dev/null under a 4 GiB address-space limit and a 300 s hang guard on: (a) ELF files with RISC-V payloads over {valid code, one instruction of every class, control transfers whose every outcome is the next instruction, undecodable word, truncated word, jump outside the code, misaligned jumps into the first / a middle / the last instruction of a block, entry at every 2-byte offset of the code and outside it, no executable section, no loadable segment, overlapping segments} x types; (b) every truncation length and every single-byte substitution {00, ff, ~b} of every header byte (ELF header, program headers, section headers) of two valid seed files (thorough: 20 substitute values for EVERY byte of the files); (c) memsz in {2^22, 2^30+1, 2^36, 2^62, 2^63, 2^64-1, 2^64-8} on a regular segment, on a segment without file bytes (alone / next to regular ones) and with the file size claimed equally large, section/segment addresses at the top of the address space; (d) argument vectors of length 0, 2, 3, a missing file, a directory, an empty file; plus the two seed files under a pseudo-terminal (UI must be entered and 'q' must exit 0). Oracle: exit status 1 with a 'mltwist: ' message (or UI entered), never a Go panic/fatal error, signal or timeout. Non-trivial = runs ending with the error exit.",
 		Assumptions: []string{"with stdin=/dev/null a file that loads ends in 'cannot get terminal size' (exit 1), which counts as a regular error exit; the pty runs confirm that valid files do enter the UI"},
 		Run: func(r *eng.Run) {
 			dir, err := os.MkdirTemp("", "vc26")
@@ -133,6 +133,12 @@ func init() {
 				"jump-last": {prog.Jal(0, 6), prog.Jalr(0, 1, 0)},
 				"jump-back": {prog.Nop, prog.Jalr(0, 1, 0), prog.Beq(1, 2, -2)},
 				"branch-bk": {prog.Bne(1, 2, -8)},
+				// control transfers whose every outcome is the next instruction
+				"fallthru": {prog.Beq(0, 0, 4), prog.Jal(1, 4), prog.B(4, 2, 1, 5) /* bge +4 */, prog.Bne(3, 3, 4), prog.Jalr(0, 1, 0)},
+				// one instruction of every class the front end knows
+				"all-kinds": {prog.Lui(1, 0xfffff), prog.Auipc(2, 1), prog.Lw(3, 2, -4), prog.Sw(3, 2, 8), prog.Addi(4, 3, -1), prog.Add(5, 4, 3),
+					0x0ff0000f /* fence */, 0x0000100f /* fence.i */, prog.Csrrw(6, 5, 0x340), prog.Mul(7, 6, 5), prog.Div(8, 7, 0), prog.AmoaddW(9, 2, 8),
+					prog.LrW(10, 2), prog.ScW(11, 2, 10), prog.Addw(12, 11, 10), prog.Ecall, 0x00100073 /* ebreak */, prog.Jalr(0, 1, 0)},
 			}
 			for name, ws := range words {
 				img := prog.Image(ws)
@@ -140,6 +146,9 @@ func init() {
 					code := img[:len(img)-trunc]
 					for _, ty := range []uint16{elfgen.ET_EXEC, elfgen.ET_DYN, elfgen.ET_REL, elfgen.ET_CORE, elfgen.ET_NONE} {
 						for _, entry := range []uint64{0x1000, 0x1002, 0x1004, 0x1006, 0x1008, 0x100a, 0x100c, 0x5000, 0} {
+							if r.Quick() && ty != elfgen.ET_EXEC && ty != elfgen.ET_DYN && (entry != 0x1000 || trunc != 0) {
+								continue // quick: file types that are refused at open get one file per payload
+							}
 							f := elfgen.File{Type: ty, Entry: entry,
 								Sections: []elfgen.Section{{Type: elfgen.SHT_PROGBITS, Flags: 6, Addr: 0x1000, Data: code, Size: uint64(len(code))}},
 								Progs:    []elfgen.Prog{{Type: elfgen.PT_LOAD, Vaddr: 0x1000, Data: code, Memsz: uint64(len(code)) + 4}}}
